@@ -519,6 +519,30 @@ func (c *Ctx) lockEveryAttempt(rule string, uls *ssa.Function) {
 	everyExit(uls, failAssume, "PutAttemptCount", "failed attempt ⇒ PutAttemptCount", "a failed attempt can complete without being counted: failures on that path (an account that is already locked, …) neither add up nor re-trigger the lock")
 	everyExit(uls, nil, "PutLastAttempt", "attempt ⇒ PutLastAttempt", "an attempt can complete without its time being recorded: the window the failures are counted in is measured from a stale instant")
 	everyExit(uls, nil, "Save", "attempt ⇒ Save", "an attempt can complete without the lock state being stored")
+	// once the attempt is stored, what happens next does not depend on whether the
+	// password was right: the same errors, the same locked answer for both
+	if lm := c.lockModeOf(uls); lm != nil {
+		for _, sv := range CallsTo(uls, fnSave) {
+			var dep *ssa.If
+			for _, b := range uls.Blocks {
+				if len(b.Instrs) == 0 || !(b == sv.Block() || Dominates(sv.Block(), b)) {
+					continue
+				}
+				ifi, ok := b.Instrs[len(b.Instrs)-1].(*ssa.If)
+				if !ok || len(b.Succs) != 2 {
+					continue
+				}
+				if f, okF := EdgeFact(b, b.Succs[0]); okF && lm.mentions(f) {
+					dep = ifi
+				}
+			}
+			if dep != nil {
+				r.Bad(rule, FuncName(uls), "after Save: independent of the outcome", posf(c, dep), "after the attempt is stored the routine still branches on whether the password was right (how a storage error is treated, which answer is given): a locked account answers the right and the wrong password differently")
+			} else {
+				r.Ok(rule, FuncName(uls), "after Save: independent of the outcome", posf(c, sv), "no branch on the outcome follows the store")
+			}
+		}
+	}
 	everyExit(c.P.Func("(*ab/lock.Lock).Unlock"), nil, "PutAttemptCount", "Unlock ⇒ PutAttemptCount(0)", "Unlock can report success without resetting the failure count: the stale count makes the next failure lock the account again")
 	everyExit(c.P.Func("(*ab/lock.Lock).Unlock"), nil, "Save", "Unlock ⇒ Save", "Unlock can report success without storing the reset state")
 	everyExit(c.P.Func("(*ab/lock.Lock).Lock"), nil, "Save", "Lock ⇒ Save", "Lock can report success without storing the lock")
